@@ -3,6 +3,7 @@
 scratch copy of /repo with a mutation applied.  Evidence/replays of the run go to a scratch dir, /repo is untouched."""
 import os, shutil, subprocess, sys, tempfile
 pid = sys.argv[1]
+VF = os.path.join(os.environ.get("VERIF_ROOT", os.path.dirname(os.path.dirname(os.path.abspath(__file__)))), "vf")
 d = tempfile.mkdtemp(prefix="vfmut-", dir="/var/tmp")
 try:
     subprocess.run(["rsync", "-a", "--exclude", ".git", "--exclude", "__pycache__", "/repo/", d + "/repo/"], check=True)
@@ -15,7 +16,7 @@ try:
         assert s.count(old) >= 1, "pattern not found"
         open(p, "w").write(s.replace(old, new, 1))
     env = dict(os.environ, VERIF_REPO=d + "/repo", VERIF_EVIDENCE_DIR=d + "/evidence", VERIF_REPLAY_DIR=d + "/replays")
-    r = subprocess.run(["/verif/vf", "check", pid] + sys.argv[5:] if sys.argv[2] != "--patch" else ["/verif/vf", "check", pid] + sys.argv[4:],
+    r = subprocess.run([VF, "check", pid] + sys.argv[5:] if sys.argv[2] != "--patch" else [VF, "check", pid] + sys.argv[4:],
                        env=env, capture_output=True, text=True)
     print(r.stdout[-3000:]); print(r.stderr[-1500:])
     print("exit", r.returncode)
